@@ -12,6 +12,7 @@ import (
 	"io"
 	"math"
 	"strconv"
+	"strings"
 	"sync"
 	"testing"
 	"unicode/utf8"
@@ -185,9 +186,40 @@ func (v Val) goValue() interface{} {
 			out[string(kv.K)] = kv.V.goValue()
 		}
 		return out
+	// class L2: other concrete slice/map types behind the interface{} value (elements are string / int kinds)
+	case "[]string":
+		out := make([]string, len(v.L))
+		for i := range v.L {
+			out[i] = string(v.L[i].V)
+		}
+		return out
+	case "[]int":
+		out := make([]int, len(v.L))
+		for i := range v.L {
+			out[i] = int(parseI(v.L[i].V))
+		}
+		return out
+	case "namedList": // a named slice type with a method
+		out := make(namedList, len(v.L))
+		for i := range v.L {
+			out[i] = v.L[i].goValue()
+		}
+		return out
+	case "map[string]string":
+		out := make(map[string]string, len(v.M))
+		for _, kv := range v.M {
+			out[string(kv.K)] = string(kv.V.V)
+		}
+		return out
 	}
 	panic("unknown value kind " + v.T)
 }
+
+// namedList is a named slice type with a method (not a fmt.Stringer).
+type namedList []interface{}
+
+// Len makes namedList a type with a method set.
+func (n namedList) Len() int { return len(n) }
 
 // number reports the value widened to float64, if v is of a numeric kind.
 func (v Val) number() (float64, bool) {
@@ -239,34 +271,188 @@ func (v Val) idModel() float64 {
 	panic("id of kind " + v.T)
 }
 
-// build makes the orb value. reverse inserts the properties of every feature
-// (and of every nested map) in the opposite order.
+// spare capacity handed to the library (class L4: arguments are read-only): every point slice and
+// every outer slice of an input geometry, and the feature list of every layer, has room behind its
+// length that holds a sentinel; spareIntact checks after the calls that nobody wrote there.
+var sparePoint = orb.Point{7.5e8, -7.5e8}
+
+func sparePts(ps []orb.Point) []orb.Point {
+	if ps == nil {
+		return nil
+	}
+	out := make([]orb.Point, len(ps)+2)
+	copy(out, ps)
+	out[len(ps)], out[len(ps)+1] = sparePoint, sparePoint
+	return out[:len(ps)]
+}
+
+func sparePtsIntact(ps []orb.Point) bool {
+	if ps == nil {
+		return true
+	}
+	if cap(ps) != len(ps)+2 {
+		return false
+	}
+	t := ps[:cap(ps)]
+	return t[len(ps)] == sparePoint && t[len(ps)+1] == sparePoint
+}
+
+// withSpare deep-copies g giving every slice spare capacity.
+func withSpare(g orb.Geometry) orb.Geometry {
+	switch v := g.(type) {
+	case orb.MultiPoint:
+		return orb.MultiPoint(sparePts(v))
+	case orb.LineString:
+		return orb.LineString(sparePts(v))
+	case orb.Ring:
+		return orb.Ring(sparePts(v))
+	case orb.MultiLineString:
+		out := make(orb.MultiLineString, len(v), len(v)+1)
+		for i := range v {
+			out[i] = sparePts(v[i])
+		}
+		out[:len(v)+1][len(v)] = orb.LineString{sparePoint}
+		return out
+	case orb.Polygon:
+		out := make(orb.Polygon, len(v), len(v)+1)
+		for i := range v {
+			out[i] = sparePts(v[i])
+		}
+		out[:len(v)+1][len(v)] = orb.Ring{sparePoint}
+		return out
+	case orb.MultiPolygon:
+		out := make(orb.MultiPolygon, len(v), len(v)+1)
+		for i := range v {
+			out[i] = withSpare(v[i]).(orb.Polygon)
+		}
+		out[:len(v)+1][len(v)] = orb.Polygon{orb.Ring{sparePoint}}
+		return out
+	case orb.Collection:
+		out := make(orb.Collection, len(v))
+		for i := range v {
+			out[i] = withSpare(v[i])
+		}
+		return out
+	}
+	return g
+}
+
+// spareIntact reports whether the spare capacity made by withSpare is untouched.
+func spareIntact(g orb.Geometry) bool {
+	tailOK := func(n, c int, last []orb.Point) bool { return c == n+1 && len(last) == 1 && last[0] == sparePoint }
+	switch v := g.(type) {
+	case orb.MultiPoint:
+		return sparePtsIntact(v)
+	case orb.LineString:
+		return sparePtsIntact(v)
+	case orb.Ring:
+		return sparePtsIntact(v)
+	case orb.MultiLineString:
+		for _, l := range v {
+			if !sparePtsIntact(l) {
+				return false
+			}
+		}
+		return tailOK(len(v), cap(v), v[:cap(v)][cap(v)-1])
+	case orb.Polygon:
+		for _, r := range v {
+			if !sparePtsIntact(r) {
+				return false
+			}
+		}
+		return tailOK(len(v), cap(v), v[:cap(v)][cap(v)-1])
+	case orb.MultiPolygon:
+		for _, p := range v {
+			if !spareIntact(p) {
+				return false
+			}
+		}
+		if cap(v) != len(v)+1 {
+			return false
+		}
+		last := v[:cap(v)][cap(v)-1]
+		return len(last) == 1 && len(last[0]) == 1 && last[0][0] == sparePoint
+	case orb.Collection:
+		for _, m := range v {
+			if !spareIntact(m) {
+				return false
+			}
+		}
+	}
+	return true
+}
+
+var spareFeature = &geojson.Feature{Type: "spare"}
+
+// buildFeature makes one orb feature. reverse inserts the properties (and those of every nested
+// map) in the opposite order.
+func buildFeature(f Feat, reverse bool) *geojson.Feature {
+	of := geojson.NewFeature(withSpare(f.Geom.V))
+	if f.ID != nil {
+		of.ID = f.ID.goValue()
+	}
+	if f.NilProps && len(f.Props) == 0 {
+		of.Properties = nil
+	} else {
+		n := len(f.Props)
+		for i := range f.Props {
+			kv := f.Props[i]
+			if reverse {
+				kv = f.Props[n-1-i]
+			}
+			of.Properties[string(kv.K)] = kv.V.goValue()
+		}
+	}
+	return of
+}
+
+func buildFeatures(fs []Feat, reverse bool) []*geojson.Feature {
+	if fs == nil {
+		return nil
+	}
+	out := make([]*geojson.Feature, len(fs), len(fs)+2)
+	for i := range fs {
+		out[i] = buildFeature(fs[i], reverse)
+	}
+	t := out[:len(fs)+2]
+	t[len(fs)], t[len(fs)+1] = spareFeature, spareFeature
+	return out
+}
+
+// build makes the orb value.
 func (c Case) build(reverse bool) mvt.Layers {
 	layers := make(mvt.Layers, 0, len(c.Layers))
 	for _, l := range c.Layers {
-		ol := &mvt.Layer{Name: string(l.Name), Version: l.Version, Extent: l.Extent}
-		for _, f := range l.Features {
-			of := geojson.NewFeature(gen.DeepCopy(f.Geom.V))
-			if f.ID != nil {
-				of.ID = f.ID.goValue()
-			}
-			if f.NilProps && len(f.Props) == 0 {
-				of.Properties = nil
-			} else {
-				n := len(f.Props)
-				for i := range f.Props {
-					kv := f.Props[i]
-					if reverse {
-						kv = f.Props[n-1-i]
-					}
-					of.Properties[string(kv.K)] = kv.V.goValue()
-				}
-			}
-			ol.Features = append(ol.Features, of)
-		}
-		layers = append(layers, ol)
+		layers = append(layers, &mvt.Layer{Name: string(l.Name), Version: l.Version, Extent: l.Extent, Features: buildFeatures(l.Features, reverse)})
 	}
 	return layers
+}
+
+// inputUntouched: the layers handed to the encoder still are what build makes, bit for bit, and
+// the spare capacity behind every slice still holds its sentinel.
+func inputUntouched(got, want mvt.Layers, spareLayout bool) error {
+	if err := sameInput(got, want); err != nil {
+		return err // the VALUE the caller passed changed: a failure
+	}
+	if !spareLayout {
+		return nil
+	}
+	// writes that change no value the caller can reach without re-slicing (sentinel cells behind len)
+	// are layout facts: counted, never failed (SOUNDNESS RULE of round L)
+	for _, l := range got {
+		if l.Features != nil {
+			t := l.Features[:cap(l.Features)]
+			if len(t) != len(l.Features)+2 || t[len(t)-1] != spareFeature || t[len(t)-2] != spareFeature {
+				stats.Class("layout-note: spare capacity behind an input feature list was written")
+			}
+		}
+		for _, f := range l.Features {
+			if !spareIntact(f.Geometry) {
+				stats.Class("layout-note: spare capacity behind an input geometry slice was written")
+			}
+		}
+	}
+	return nil
 }
 
 // ---------------------------------------------------------------- model
@@ -284,6 +470,11 @@ type dFeat struct {
 	id    interface{} // nil or float64
 	props map[string]interface{}
 }
+
+// exactF is an expected float64 whose sign of zero must come back too (class L6): the value table
+// of a layer is keyed by Go value, so +0 and -0 OF THE SAME GO TYPE in one layer share an entry and
+// only then is the sign of a zero allowed to change.
+type exactF float64
 
 func closeRing(r orb.Ring) orb.Ring {
 	out := make(orb.Ring, len(r), len(r)+1)
@@ -346,6 +537,24 @@ func (c Case) model() []dLayer {
 	out := make([]dLayer, len(c.Layers))
 	for i, l := range c.Layers {
 		dl := dLayer{name: string(l.Name), version: l.Version, extent: l.Extent}
+		// which float kinds have zeros of both signs in this layer (features without geometry are not encoded)
+		zeros := map[string]int{}
+		for _, f := range l.Features {
+			if len(modelGeoms(f.Geom.V)) == 0 {
+				continue
+			}
+			for _, kv := range f.Props {
+				if kv.V.T == "float32" || kv.V.T == "float64" {
+					if v, _ := kv.V.number(); v == 0 {
+						if math.Signbit(v) {
+							zeros[kv.V.T] |= 2
+						} else {
+							zeros[kv.V.T] |= 1
+						}
+					}
+				}
+			}
+		}
 		for _, f := range l.Features {
 			var id interface{}
 			if f.ID != nil {
@@ -353,7 +562,11 @@ func (c Case) model() []dLayer {
 			}
 			props := make(map[string]interface{}, len(f.Props))
 			for _, kv := range f.Props {
-				props[string(kv.K)] = kv.V.model()
+				m := kv.V.model()
+				if v, ok := m.(float64); ok && (v != 0 || zeros[kv.V.T] != 3) {
+					m = exactF(v)
+				}
+				props[string(kv.K)] = m
 			}
 			for _, g := range modelGeoms(f.Geom.V) {
 				dl.feats = append(dl.feats, dFeat{geom: g, id: id, props: props})
@@ -383,9 +596,13 @@ func fromOrb(ls mvt.Layers) ([]dLayer, error) {
 }
 
 // sameValue: exact comparison of decoded property values. Numbers are compared
-// with == on float64 (so -0 and +0 are the same number; nothing else is tolerated).
+// bit for bit (exactF) except a zero in a layer that holds zeros of both signs of
+// that Go type, which is compared with == (so -0 and +0 are the same number there).
 func sameValue(got, want interface{}) bool {
 	switch w := want.(type) {
+	case exactF:
+		g, ok := got.(float64)
+		return ok && math.Float64bits(g) == math.Float64bits(float64(w))
 	case string:
 		g, ok := got.(string)
 		return ok && g == w
@@ -451,9 +668,34 @@ func compareLayers(got, want []dLayer, who string) error {
 
 // ---------------------------------------------------------------- oracle
 
-func checkCase(c Case) error {
-	want := c.model()
-	layers := c.build(false)
+func checkCase(c Case) error { return checkBuilt(c, c.model(), c.build, true) }
+
+// decodeReadOnly calls a decoder on a caller-owned copy of data that has spare capacity and
+// requires the whole backing array to be unchanged afterwards (class L4).
+func decodeReadOnly(data []byte, name string, decode func([]byte) (mvt.Layers, error)) (mvt.Layers, error) {
+	buf := make([]byte, len(data)+32)
+	copy(buf, data)
+	for i := len(data); i < len(buf); i++ {
+		buf[i] = 0x55
+	}
+	out, err := decode(buf[:len(data)])
+	if !bytes.Equal(buf[:len(data)], data) {
+		return nil, fmt.Errorf("%s modified its input bytes (first difference at %d)", name, firstDiff(buf[:len(data)], data))
+	}
+	for i := len(data); i < len(buf); i++ {
+		if buf[i] != 0x55 {
+			stats.Class("layout-note: " + name + " wrote into the spare capacity behind its input bytes")
+			break
+		}
+	}
+	return out, err
+}
+
+// checkBuilt is the oracle for one tile: want is the model of what must come back, build makes
+// the value handed to the encoder (a fresh one per call; reverse fills the maps back to front).
+// c supplies the gzip / noise switches.
+func checkBuilt(c Case, want []dLayer, build func(reverse bool) mvt.Layers, spareLayout bool) error {
+	layers := build(false)
 
 	runNoise(c, 0)
 	data, err := mvt.Marshal(layers)
@@ -472,19 +714,19 @@ func checkCase(c Case) error {
 			return fmt.Errorf("Marshal call %d failed: %v", k+2, err)
 		}
 		if !bytes.Equal(data, again) {
-			return fmt.Errorf("Marshal call %d gave different bytes:\n% x\n% x", k+2, data, again)
+			return fmt.Errorf("Marshal call %d gave different bytes:\n% x\n% x", k+2, clip(data), clip(again))
 		}
 	}
-	rev, err := mvt.Marshal(c.build(true))
+	rev, err := mvt.Marshal(build(true))
 	if err != nil {
 		return fmt.Errorf("Marshal of the reverse-filled copy failed: %v", err)
 	}
 	if !bytes.Equal(data, rev) {
-		return fmt.Errorf("Marshal of an equal value with maps filled in reverse order gave different bytes:\n% x\n% x", data, rev)
+		return fmt.Errorf("Marshal of an equal value with maps filled in reverse order gave different bytes:\n% x\n% x", clip(data), clip(rev))
 	}
 
 	runNoise(c, 2)
-	out, err := mvt.Unmarshal(data)
+	out, err := decodeReadOnly(data, "Unmarshal", mvt.Unmarshal)
 	if err != nil {
 		return fmt.Errorf("Unmarshal failed: %v (tile % x)", err, clip(data))
 	}
@@ -532,7 +774,7 @@ func checkCase(c Case) error {
 			return fmt.Errorf("MarshalGzipped inflates to different bytes than Marshal")
 		}
 		runNoise(c, 4)
-		out, err := mvt.UnmarshalGzipped(gz)
+		out, err := decodeReadOnly(gz, "UnmarshalGzipped", mvt.UnmarshalGzipped)
 		if err != nil {
 			return fmt.Errorf("UnmarshalGzipped failed: %v", err)
 		}
@@ -547,6 +789,10 @@ func checkCase(c Case) error {
 			func() ([]byte, error) { return mvt.MarshalGzipped(layers) }, mvt.UnmarshalGzipped); err != nil {
 			return err
 		}
+	}
+	// the value handed to the encoder is read-only (class L4)
+	if err := inputUntouched(layers, build(false), spareLayout); err != nil {
+		return fmt.Errorf("the layers passed to Marshal were modified: %v", err)
 	}
 	return nil
 }
@@ -728,6 +974,11 @@ func genGeom(t *rapid.T, depth int) (orb.Geometry, string) {
 		if rapid.IntRange(0, 7).Draw(t, "one") == 0 {
 			return orb.LineString(c.points(1, 1)), "LineString(1 vertex)"
 		}
+		if rapid.IntRange(0, 63).Draw(t, "largeline") == 0 {
+			// rare large class (L1): a vertex count around a power of two
+			n := rapid.SampledFrom([]int{64, 512, 1024, 2048, 4096}).Draw(t, "largen") + rapid.IntRange(-2, 3).Draw(t, "larged")
+			return orb.LineString(zigzag(n)), "LineString(large)"
+		}
 		return orb.LineString(c.points(2, 6)), "LineString"
 	case 3:
 		n := rapid.IntRange(1, 3).Draw(t, "lines")
@@ -835,6 +1086,11 @@ func genString(t *rapid.T, label string) string {
 		return string(rapid.SliceOfN(rapid.Byte(), 1, 6).Draw(t, label)) // mostly invalid UTF-8
 	case 5:
 		return rapid.StringN(100, 200, -1).Draw(t, label) // length prefix of two bytes
+	case 6:
+		if rapid.IntRange(0, 24).Draw(t, label+"huge") == 0 {
+			// rare large class (L1): a string around 2^14 or 2^16 bytes (length prefix of three bytes)
+			return strings.Repeat("y", rapid.SampledFrom([]int{1 << 14, 1 << 16}).Draw(t, label+"hn")+rapid.IntRange(-2, 3).Draw(t, label+"hd"))
+		}
 	}
 	return rapid.String().Draw(t, label)
 }
@@ -910,13 +1166,42 @@ func genVal(t *rapid.T, depth int) Val {
 		return Val{T: "nil"}
 	case k == 16:
 		n := rapid.IntRange(0, 3).Draw(t, "ln")
+		switch rapid.IntRange(0, 5).Draw(t, "slicetype") {
+		case 0:
+			v := Val{T: "[]string"}
+			for i := 0; i < n; i++ {
+				v.L = append(v.L, Val{T: "string", V: S(genString(t, "e"))})
+			}
+			return v
+		case 1:
+			v := Val{T: "[]int"}
+			for i := 0; i < n; i++ {
+				v.L = append(v.L, Val{T: "int", V: S(strconv.Itoa(rapid.IntRange(-3, 3).Draw(t, "e")))})
+			}
+			return v
+		}
 		v := Val{T: "slice"}
+		if rapid.IntRange(0, 3).Draw(t, "named") == 0 {
+			v.T = "namedList"
+		}
 		for i := 0; i < n; i++ {
 			v.L = append(v.L, genVal(t, depth+1))
 		}
 		return v
 	default:
 		n := rapid.IntRange(0, 3).Draw(t, "mn")
+		if rapid.IntRange(0, 4).Draw(t, "maptype") == 0 {
+			v := Val{T: "map[string]string"}
+			seen := map[string]bool{}
+			for i := 0; i < n; i++ {
+				key := genKey(t)
+				if !seen[key] {
+					seen[key] = true
+					v.M = append(v.M, KV{K: S(key), V: Val{T: "string", V: S(genString(t, "e"))}})
+				}
+			}
+			return v
+		}
 		v := Val{T: "map"}
 		seen := map[string]bool{}
 		for i := 0; i < n; i++ {
@@ -1163,7 +1448,8 @@ func assumptions() {
 	stats.Assume("the first ring of a polygon feature is counter-clockwise; unclosed input rings and windings that contradict the input grouping are generated as extra classes, expected value = rings closed and regrouped by exact shoelace sign")
 	stats.Assume("bounds: positive area by default; extra classes outside the stated domain: flat on exactly one axis, and Min > Max on one or both axes; expected value = the five corners min,min / max,min / max,max / min,max / min,min written out by the harness, kept as given because the first ring of a feature is never regrouped")
 	stats.Assume("ids are absent or non-negative integers held by a Go integer kind, or by float32 (<= 2^24) / float64 (<= 2^53) with an integral value")
-	stats.Assume("property values: string, bool, all Go integer and float kinds (finite), nil, []interface{} and map[string]interface{} nested to depth 2; decoded numbers are compared with == on float64 (-0 equals +0), nil/slices/maps with their encoding/json text")
+	stats.Assume("property values: string, bool, all Go integer and float kinds (finite), nil, []interface{} and map[string]interface{} nested to depth 2, plus other concrete slice/map types ([]string, []int, a named slice type with a method, map[string]string); decoded numbers are compared bit for bit, except a zero in a layer that holds zeros of both signs of the same float kind (they share one entry of the value table: compared with ==); nil/slices/maps come back as their encoding/json text")
+	stats.Assume("layout facts are counted as layout-note classes, never failed (round L soundness rule): parts of one decoded result sharing memory, decoded layers referring to the caller's input buffer, writes into spare capacity behind an argument's length; a change of the VALUE of an argument (anything within len) is a failure")
 	stats.Assume("members of a geometry collection are non-nil and are not collections themselves; collections with 0 or >= 2 members are the known finding " + knownKey + " and are excluded from random generation")
 	stats.Assume("map-order schedules are sampled: 4 Marshal calls on one value plus one on a copy with every map filled in reverse order; gzipped entry points on one case in 16 (a gzip writer costs more than the rest of the case)")
 }
@@ -1251,6 +1537,22 @@ func TestReplay(t *testing.T) {
 	name, raw, ok := stats.Replaying()
 	if !ok {
 		t.Skip("no replay file")
+	}
+	if done, err := replayHistOrAlias(name, raw); done {
+		if err != nil {
+			t.Fatalf("replayed %s case still fails: %v", name, err)
+		}
+		return
+	}
+	if name == largeTest {
+		var lc LargeCase
+		if err := json.Unmarshal(raw, &lc); err != nil {
+			t.Fatal(err)
+		}
+		if err := stats.Guard(func() error { return checkLargeCase(lc) }); err != nil {
+			t.Fatalf("replayed large case still fails: %v", err)
+		}
+		return
 	}
 	if name == concTest {
 		var cs []Case
